@@ -697,6 +697,13 @@ func (r *NgReader) readPacketBody(buffer []byte, capacity int) ([]byte, error) {
 	if r.ci.CaptureLength < 0 || uint64(r.ci.CaptureLength)+uint64(padding) > uint64(r.bodyLength()) {
 		return nil, fmt.Errorf("Capture length %d exceeds block length", r.ci.CaptureLength)
 	}
+	if r.ci.CaptureLength > r.ci.Length {
+		// skip the packet, so the next one can be read
+		if err := r.discard(int(r.currentBlock.length)); err != nil {
+			return nil, err
+		}
+		return nil, fmt.Errorf("Capture length %d exceeds original packet length %d", r.ci.CaptureLength, r.ci.Length)
+	}
 	data, err := r.readBodyBytes(buffer, r.ci.CaptureLength, capacity)
 	if err != nil {
 		return data, err
